@@ -330,7 +330,7 @@ namespace bluetoe
                             if ( write_size != 1 + 2 * sizeof( std::uint8_t* ) )
                                 return request_error( bluetoe::error_codes::invalid_attribute_value_length );
 
-                                                 start_address = read_address( value +1 );
+                            const std::uintptr_t start_address = read_address( value +1 );
                             const std::uintptr_t end_address   = read_address( value +1 + sizeof( std::uint8_t* ) );
 
                             if ( start_address > end_address || !MemRegions::acceptable( start_address,end_address ) )
@@ -395,6 +395,8 @@ namespace bluetoe
                             if ( write_size != 1 + 2 * sizeof( std::uint8_t* ) )
                                 return request_error( bluetoe::error_codes::invalid_attribute_value_length );
 
+                            // start_address is used to keep track of the read position from now on
+                            in_flash_mode = false;
                             error         = error_codes::success;
                             start_address = read_address( value +1 );
                             end_address   = read_address( value +1 + sizeof( std::uint8_t* ) );
